@@ -135,6 +135,9 @@ let handle line =
       let l = { lname = cell_of name; lmodel = model_of m;
                 lsubs = List.map (function L [k; sm] -> (cell_of k, model_of sm) | _ -> failwith "sub") (list_of subs) } in
       "{\"tables\":" ^ jres (jlist (fun (k, t) -> "[" ^ jcell k ^ "," ^ jtable t ^ "]")) (linker_to_tables (bool_of st) (bool_of it) (bool_of ii) l) ^ "}"
+  | L [A "container"; sp; vars] ->
+      let vs = List.map (function L [n; s] -> (str_of n, series_of s) | _ -> failwith "var") (list_of vars) in
+      "{\"table\":" ^ jres jtable (container_to_table (span_of sp) vs) ^ "}"
   | L [A "symbols"; ss] ->
       let t = symbols_to_table (List.map sym_of (list_of ss)) in
       let rt = match t with TOk tb -> jres (jlist jsym) (table_to_symbols tb) | _ -> "null" in
